@@ -24,13 +24,16 @@ ASSUMPTIONS = ['RecursionError is set aside and counted (expected 0 for '
 def shards(tier, seed):
     n = 16
     q = tier == 'quick'
-    return [{'name': 's%d' % i, 'i': i,
+    out = [{'name': 's%d' % i, 'i': i,
              'frames': 14 if q else 220, 'values': 8 if q else 255,
              'max_positions': 160 if q else 400, 'tag_sweep': 0.3,
              'rand': 300 if q else 6000,
              'deep': [16, 32, 64] if i == 1 else [],
              'deep_fault': [4, 16, 40, 60] if i == 2 else [], 'big': []}
-            for i in range(n)]
+           for i in range(n)]
+    return common.with_configs(out, [common.W_ERROR, common.PY_O,
+                                     common.LOG_DEBUG],
+                               take=3 if q else 6)
 
 
 def cases(shard, rnd):
@@ -60,6 +63,14 @@ def run_case(case, rec):
         return
     if isinstance(u.exc, RecursionError):
         rec.count('recursion_error_set_aside')
+        return
+    if common.CONFIG.get('warnings') == 'error' and \
+            isinstance(u.exc, DeprecationWarning) and len(data) >= 11 and \
+            data[0] == 1 and int.from_bytes(data[7:11], 'big') == \
+            common.RECOVER_ASYNC:
+        # python -W error: the documented deprecation warning of
+        # Basic.RecoverAsync, raised because the user asked for it
+        rec.count('recover_async_deprecation_under_W_error')
         return
     tb = u.exc.__traceback__
     site = '?'
